@@ -144,6 +144,7 @@ func parentOf(v ssa.Value) *ssa.Function {
 
 // indexCovered: proof that len(x) > k at block blk.
 func indexCovered(f *ssa.Function, x ssa.Value, k int64, blk *ssa.BasicBlock) (string, bool) {
+	curUseBlock = blk
 	// (1) built here with enough elements
 	if n, ok := staticLen(x); ok {
 		if n > k {
@@ -472,8 +473,30 @@ func elemKey(v ssa.Value) string {
 // lenKey: a structural key under which two values are the same slice or slices of provably
 // equal length: stable struct-field paths rooted at parameters, niladic getters of the flag
 // package, and lo.Map (length-preserving) of such a value.
+// curUseBlock: the block of the index / slice expression being decided (set by the entry points);
+// a slice that is still being built inside a loop has its final length only after the loop.
+var curUseBlock *ssa.BasicBlock
+
 func lenKey(f *ssa.Function, v ssa.Value) string {
 	switch x := v.(type) {
+	case *ssa.MakeSlice:
+		// make([]T, len(Y)): as long as Y
+		lv := x.Len
+		if cv, ok := lv.(*ssa.Convert); ok {
+			lv = cv.X
+		}
+		if y, ok := lenOperand(lv); ok {
+			if k := lenKey(f, y); k != "" {
+				return k
+			}
+		}
+	case *ssa.Phi:
+		// out = append(out, e) once per round of a range loop over Y, used after the loop: as long as Y
+		if y, exit, ok := loopBuiltFrom(x); ok && curUseBlock != nil && edgesDominate(f, []cfgEdge{exit}, curUseBlock) {
+			if k := lenKey(f, y); k != "" {
+				return k
+			}
+		}
 	case *ssa.Call:
 		name := calleeName(x.Common())
 		if strings.HasSuffix(name, "samber/lo.Map") && len(x.Call.Args) >= 1 {
@@ -497,7 +520,14 @@ func lenKey(f *ssa.Function, v ssa.Value) string {
 			}
 		}
 	}
-	return valueKey(v)
+	if k := valueKey(v); k != "" {
+		return k
+	}
+	// the same SSA value is the same slice
+	if in, ok := v.(ssa.Instruction); ok && in.Parent() == f && v.Name() != "" {
+		return "ssa:" + v.Name()
+	}
+	return ""
 }
 
 // addrKey: key of an address that is a field path rooted at a parameter or at a local that is
@@ -779,6 +809,7 @@ func srcIndexAt(c *Ctx, f *ssa.Function, pos token.Pos) string {
 // with s' the same slice or one of provably equal length; idx is not negative because it is a
 // loop counter starting at a constant ≥ 0 and only incremented, or an unsigned/len-derived value.
 func varIndexCovered(f *ssa.Function, x, idx ssa.Value, blk *ssa.BasicBlock) (string, bool) {
+	curUseBlock = blk
 	same := func(a ssa.Value) bool {
 		if a == x {
 			return true
@@ -1495,4 +1526,97 @@ func capturedName(v ssa.Value) string {
 		}
 	}
 	return ""
+}
+
+
+// loopBuiltFrom: P is the loop-header phi of a slice that starts empty and gets exactly one
+// append per round of a range loop over Y; returns Y and the loop's exit edge.
+func loopBuiltFrom(P *ssa.Phi) (ssa.Value, cfgEdge, bool) {
+	if _, ok := P.Type().Underlying().(*types.Slice); !ok || len(P.Edges) != 2 {
+		return nil, cfgEdge{}, false
+	}
+	var back *ssa.Call
+	emptyInit := false
+	for _, e := range P.Edges {
+		switch x := e.(type) {
+		case *ssa.Call:
+			if bi, ok := x.Call.Value.(*ssa.Builtin); ok && bi.Name() == "append" && len(x.Call.Args) == 2 && x.Call.Args[0] == ssa.Value(P) {
+				// append(P, one element): the variadic argument is a one-element slice literal
+				if sl, ok := x.Call.Args[1].(*ssa.Slice); ok {
+					if n, ok := staticLen(sl); ok && n == 1 {
+						back = x
+					}
+				}
+			}
+		case *ssa.MakeSlice:
+			if k, ok := x.Len.(*ssa.Const); ok && isIntConst(k) && k.Int64() == 0 {
+				emptyInit = true
+			}
+		case *ssa.Const:
+			if x.IsNil() {
+				emptyInit = true
+			}
+		case *ssa.Slice:
+			if n, ok := staticLen(x); ok && n == 0 {
+				emptyInit = true
+			}
+		}
+	}
+	if back == nil || !emptyInit {
+		return nil, cfgEdge{}, false
+	}
+	hdr := P.Block()
+	iff, ok := hdr.Instrs[len(hdr.Instrs)-1].(*ssa.If)
+	if !ok {
+		return nil, cfgEdge{}, false
+	}
+	cond, ok := iff.Cond.(*ssa.BinOp)
+	if !ok || cond.Op != token.LSS {
+		return nil, cfgEdge{}, false
+	}
+	y, ok := lenOperand(cond.Y)
+	if !ok {
+		return nil, cfgEdge{}, false
+	}
+	if !nonNegative(cond.X, 0) || !countsByOne(cond.X) {
+		return nil, cfgEdge{}, false
+	}
+	return y, cfgEdge{hdr, 1}, true
+}
+
+// countsByOne: i is the range counter (phi(-1, i)+1) or phi(0, i+1).
+func countsByOne(v ssa.Value) bool {
+	if bo, ok := v.(*ssa.BinOp); ok && bo.Op == token.ADD {
+		if ph, ok := bo.X.(*ssa.Phi); ok {
+			if k, ok := bo.Y.(*ssa.Const); ok && isIntConst(k) && k.Int64() == 1 {
+				for _, e := range ph.Edges {
+					if e == v {
+						continue
+					}
+					if kc, ok := e.(*ssa.Const); !ok || !isIntConst(kc) || kc.Int64() != -1 {
+						return false
+					}
+				}
+				return true
+			}
+		}
+	}
+	if ph, ok := v.(*ssa.Phi); ok {
+		okInit, okStep := false, false
+		for _, e := range ph.Edges {
+			if kc, ok := e.(*ssa.Const); ok && isIntConst(kc) && kc.Int64() == 0 {
+				okInit = true
+				continue
+			}
+			if bo, ok := e.(*ssa.BinOp); ok && bo.Op == token.ADD && bo.X == ssa.Value(ph) {
+				if k, ok := bo.Y.(*ssa.Const); ok && isIntConst(k) && k.Int64() == 1 {
+					okStep = true
+					continue
+				}
+			}
+			return false
+		}
+		return okInit && okStep
+	}
+	return false
 }
